@@ -429,3 +429,201 @@ Proof.
     + repeat split. intros steps W. apply (H steps). apply WR. assumption.
     + unfold bfs_fuel, fp_universe in H. cbn [length] in H. rewrite endpoints_length in H. lia.
 Qed.
+
+(* ------------------------------------------------------------------------------------------ *)
+(* find_variable_paths: the enumeration is exactly the set of qualifying walks *)
+Lemma N_seq_from_In x s cnt : In x (N_seq_from s cnt) <-> s <= x /\ x < s + N.of_nat cnt.
+Proof.
+  revert s. induction cnt as [|cnt IH]; intros s; cbn [N_seq_from In].
+  - lia.
+  - rewrite IH. lia.
+Qed.
+Lemma N_seq_In x n : In x (N_seq n) <-> x < n.
+Proof. unfold N_seq. rewrite N_seq_from_In. lia. Qed.
+
+Lemma firstn_incl {A} (n : nat) (l : list A) x : In x (firstn n l) -> In x l.
+Proof. revert l. induction n as [|n IH]; intros [|a l]; cbn; try tauto. intros [H|H]; [left; assumption|right; apply IH; assumption]. Qed.
+Lemma firstn_short {A} (n : nat) (l : list A) : (length (firstn n l) < n)%nat -> firstn n l = l.
+Proof. intros H. apply firstn_all2. rewrite firstn_length in H. lia. Qed.
+
+Section VarPaths.
+  Variable g : graph.
+  Variable c : vcfg.
+  Variable to : N.
+
+  (* a qualifying walk from `cur`: every step is offered by get_variable_path_neighbors_filtered,
+     entered nodes pass the node filter (the destination excepted) and, unless cycles are allowed,
+     no node is entered twice (`visited` = nodes already on the path) *)
+  Fixpoint okwalk (visited : list N) (cur : N) (steps : list (N * N)) : Prop :=
+    match steps with
+    | [] => True
+    | (w, e) :: r =>
+        In (w, e) (vp_succs g c cur) /\ (vcycles c = false -> ~ In w visited)
+        /\ (w <> to -> node_ok g (vfilt_of c) w = true)
+        /\ okwalk (if vcycles c then visited else w :: visited) w r
+    end.
+  Fixpoint end_of (cur : N) (steps : list (N * N)) : N :=
+    match steps with [] => cur | (w, _) :: r => end_of w r end.
+
+  Lemma vp_dfs_spec : forall rem cur visited rns res p,
+    In p (vp_dfs g c to rem cur visited rns res) <->
+    exists steps, length steps = rem /\ okwalk visited cur steps /\ end_of cur steps = to /\
+                  p = (rev rns ++ map fst steps, rev res ++ map snd steps).
+  Proof.
+    induction rem as [|rem IH]; intros cur visited rns res p; cbn [vp_dfs].
+    - destruct (N.eqb_spec cur to) as [E|E]; cbn [In].
+      + split.
+        * intros [<-|[]]. exists []. cbn. rewrite !app_nil_r. tauto.
+        * intros (steps & L & _ & _ & ->). destruct steps; [|discriminate]. cbn. rewrite !app_nil_r. left. reflexivity.
+      + split; [intros []|]. intros (steps & L & _ & Hend & _). destruct steps; [|discriminate]. cbn in Hend. contradiction.
+    - rewrite in_flat_map. split.
+      + intros ([w e] & Hs & Hin).
+        destruct (vcycles c) eqn:Hcy; cbn [negb andb] in Hin.
+        * destruct (N.eqb_spec w to) as [Ew|Ew]; cbn [negb andb] in Hin.
+          -- apply IH in Hin. destruct Hin as (steps & L & Hok & Hend & ->).
+             exists ((w, e) :: steps). cbn [length okwalk end_of map fst snd]. rewrite Hcy.
+             repeat split; try assumption; try congruence.
+             ++ cbn [rev]. rewrite <- !app_assoc. reflexivity.
+          -- destruct (node_ok g (vfilt_of c) w) eqn:Hno; cbn [negb] in Hin; [|destruct Hin].
+             apply IH in Hin. destruct Hin as (steps & L & Hok & Hend & ->).
+             exists ((w, e) :: steps). cbn [length okwalk end_of map fst snd]. rewrite Hcy.
+             repeat split; try assumption; try congruence.
+             ++ cbn [rev]. rewrite <- !app_assoc. reflexivity.
+        * destruct (mem w visited) eqn:Hm; [destruct Hin|].
+          apply mem_nIn in Hm.
+          destruct (N.eqb_spec w to) as [Ew|Ew]; cbn [negb andb] in Hin.
+          -- apply IH in Hin. destruct Hin as (steps & L & Hok & Hend & ->).
+             exists ((w, e) :: steps). cbn [length okwalk end_of map fst snd]. rewrite Hcy.
+             repeat split; try assumption; try congruence.
+             ++ cbn [rev]. rewrite <- !app_assoc. reflexivity.
+          -- destruct (node_ok g (vfilt_of c) w) eqn:Hno; cbn [negb] in Hin; [|destruct Hin].
+             apply IH in Hin. destruct Hin as (steps & L & Hok & Hend & ->).
+             exists ((w, e) :: steps). cbn [length okwalk end_of map fst snd]. rewrite Hcy.
+             repeat split; try assumption; try congruence.
+             ++ cbn [rev]. rewrite <- !app_assoc. reflexivity.
+      + intros (steps & L & Hok & Hend & ->). destruct steps as [|[w e] steps]; [discriminate|].
+        cbn [okwalk] in Hok. destruct Hok as (Hs & Hvis & Hno & Hok). cbn [end_of] in Hend.
+        exists (w, e). split; [assumption|].
+        assert (Hrec : In (rev rns ++ map fst ((w, e) :: steps), rev res ++ map snd ((w, e) :: steps))
+                          (vp_dfs g c to rem w (if vcycles c then visited else w :: visited) (w :: rns) (e :: res))).
+        { apply IH. exists steps. cbn [length] in L. repeat split; try lia; try assumption.
+          cbn [rev map fst snd]. rewrite <- !app_assoc. reflexivity. }
+        destruct (vcycles c) eqn:Hcy; cbn [negb andb].
+        * destruct (N.eqb_spec w to) as [Ew|Ew]; cbn [negb andb]; [assumption|].
+          rewrite (Hno Ew). cbn [negb]. assumption.
+        * assert (Hm : mem w visited = false) by (apply mem_nIn; apply Hvis; reflexivity).
+          rewrite Hm. destruct (N.eqb_spec w to) as [Ew|Ew]; cbn [negb andb]; [assumption|].
+          rewrite (Hno Ew). cbn [negb]. assumption.
+  Qed.
+End VarPaths.
+
+Definition dstep (dir : N) (e : edge) (u w : N) : Prop :=
+  (dir = 0 /\ dir_step e u w) \/ (dir = 1 /\ dir_step e w u) \/ (dir = 2 /\ (dir_step e u w \/ dir_step e w u)).
+
+Lemma out_part_spec g (ok : edge -> bool) cur w i :
+  In (w, i) (flat_map (fun e => if ok e then
+                                  if N.eqb (efrom e) cur then [(eto e, eid e)]
+                                  else if negb (edir e) && N.eqb (eto e) cur then [(efrom e, eid e)] else []
+                                else []) (out_list g cur))
+  <-> exists e, In e (gedges g) /\ eid e = i /\ ok e = true /\ dir_step e cur w.
+Proof.
+  rewrite in_flat_map. split.
+  - intros (e & He & Hin). unfold out_list in He. apply filter_In in He. destruct He as [Hg _].
+    destruct (ok e) eqn:Hok; [|destruct Hin]. exists e.
+    destruct (N.eqb_spec (efrom e) cur) as [Hf|Hf].
+    + destruct Hin as [Hin|[]]. inversion Hin; subst. repeat split; try assumption. left. split; reflexivity.
+    + destruct (edir e) eqn:Hd; cbn [negb andb] in Hin; [destruct Hin|].
+      destruct (N.eqb_spec (eto e) cur) as [Ht|Ht]; [|destruct Hin].
+      destruct Hin as [Hin|[]]. inversion Hin; subst. repeat split; try assumption. right. repeat split; reflexivity || assumption.
+  - intros (e & Hg & <- & Hok & Hd). exists e. split.
+    + unfold out_list. apply filter_In. split; [assumption|]. unfold in_out_list.
+      destruct Hd as [[<- _]|(Hd & <- & _)]; [rewrite N.eqb_refl; reflexivity|rewrite Hd, N.eqb_refl; cbn; apply orb_true_r].
+    + rewrite Hok. destruct Hd as [[Hu Hw]|(Hd & Hu & Hw)].
+      * rewrite Hu, N.eqb_refl, Hw. left. reflexivity.
+      * destruct (N.eqb_spec (efrom e) cur) as [E|E].
+        -- assert (Ew : eto e = w) by congruence. rewrite Ew. left. reflexivity.
+        -- rewrite Hd, Hu, N.eqb_refl. cbn. rewrite Hw. left. reflexivity.
+Qed.
+
+Lemma in_part_spec g (ok : edge -> bool) (both : bool) cur w i :
+  In (w, i) (flat_map (fun e => if ok e then
+                                  if N.eqb (eto e) cur || (negb (edir e) && N.eqb (efrom e) cur) then
+                                    if both && negb (edir e) then []
+                                    else [(if N.eqb (eto e) cur then efrom e else eto e, eid e)]
+                                  else []
+                                else []) (in_list g cur))
+  <-> exists e, In e (gedges g) /\ eid e = i /\ ok e = true /\ dir_step e w cur /\ (both = true -> edir e = true).
+Proof.
+  rewrite in_flat_map. split.
+  - intros (e & He & Hin). unfold in_list in He. apply filter_In in He. destruct He as [Hg _].
+    destruct (ok e) eqn:Hok; [|destruct Hin]. exists e.
+    destruct (N.eqb (eto e) cur || (negb (edir e) && N.eqb (efrom e) cur)) eqn:Hc; [|destruct Hin].
+    destruct (both && negb (edir e)) eqn:Hb; [destruct Hin|].
+    destruct Hin as [Hin|[]]. inversion Hin; subst. clear Hin.
+    assert (Hbb : both = true -> edir e = true).
+    { intros ->. cbn in Hb. destruct (edir e); [reflexivity|discriminate]. }
+    repeat split; try assumption.
+    destruct (N.eqb_spec (eto e) cur) as [Ht|Ht].
+    + left. split; [reflexivity|assumption].
+    + cbn [orb] in Hc. apply andb_true_iff in Hc. destruct Hc as [Hd Hf].
+      apply N.eqb_eq in Hf. destruct (edir e); [discriminate|]. right. repeat split; reflexivity || assumption.
+  - intros (e & Hg & <- & Hok & Hd & Hb). exists e.
+    assert (Hin : in_in_list e cur = true).
+    { unfold in_in_list. destruct Hd as [[_ <-]|(Hd & _ & <-)]; [rewrite N.eqb_refl; reflexivity|rewrite Hd, N.eqb_refl; cbn; apply orb_true_r]. }
+    split; [unfold in_list; apply filter_In; split; assumption|].
+    rewrite Hok. unfold in_in_list in Hin. rewrite Hin.
+    assert (Hbf : both && negb (edir e) = false).
+    { destruct both; [rewrite (Hb eq_refl)|]; reflexivity. }
+    rewrite Hbf. left. f_equal.
+    destruct Hd as [[Hw Hu]|(Hdd & Hw & Hu)].
+    + rewrite Hu, N.eqb_refl. assumption.
+    + destruct (N.eqb_spec (eto e) cur) as [E|E]; congruence.
+Qed.
+
+Lemma vp_succs_spec g c cur w i :
+  In (w, i) (vp_succs g c cur) <->
+  exists e, In e (gedges g) /\ eid e = i /\ type_ok (vtypes c) e = true /\ edge_ok (vfilt_of c) e = true
+            /\ dstep (vdir c) e cur w.
+Proof.
+  unfold vp_succs. rewrite in_app_iff.
+  set (ok := fun e => type_ok (vtypes c) e && edge_ok (vfilt_of c) e).
+  assert (Hok : forall e, ok e = true <-> type_ok (vtypes c) e = true /\ edge_ok (vfilt_of c) e = true).
+  { intros e. unfold ok. apply andb_true_iff. }
+  pose proof (out_part_spec g ok cur w i) as HA.
+  pose proof (in_part_spec g ok (N.eqb (vdir c) 2) cur w i) as HB.
+  fold ok. unfold dstep.
+  destruct (N.eqb_spec (vdir c) 0) as [E0|N0]; [rewrite E0 in *; cbn [N.eqb orb] in *|];
+  [|destruct (N.eqb_spec (vdir c) 1) as [E1|N1]; [rewrite E1 in *; cbn [N.eqb orb] in *|];
+    [|destruct (N.eqb_spec (vdir c) 2) as [E2|N2]; [rewrite E2 in *; cbn [N.eqb orb] in *|]]].
+  - (* Outgoing *)
+    change (N.eqb 0 2) with false. change (N.eqb 0 1) with false. cbn [orb].
+    split.
+    + intros [H|[]]. apply HA in H. destruct H as (e & H1 & H2 & H3 & H4). apply Hok in H3. exists e. tauto.
+    + intros (e & H1 & H2 & H3 & H4 & [[_ H5]|[[H5 _]|[H5 _]]]); try discriminate H5.
+      left. apply HA. exists e. rewrite Hok. tauto.
+  - (* Incoming *)
+    change (N.eqb 1 0) with false. change (N.eqb 1 2) with false. cbn [orb].
+    split.
+    + intros [[]|H]. change (N.eqb 1 2) with false in HB. apply HB in H. destruct H as (e & H1 & H2 & H3 & H4 & _). apply Hok in H3. exists e. tauto.
+    + intros (e & H1 & H2 & H3 & H4 & [[H5 _]|[[_ H5]|[H5 _]]]); try discriminate H5.
+      right. change (N.eqb 1 2) with false in HB. apply HB. exists e. rewrite Hok. repeat split; try tauto. discriminate.
+  - (* Both *)
+    change (N.eqb 2 0) with false. change (N.eqb 2 1) with false. change (N.eqb 2 2) with true in *. cbn [orb].
+    split.
+    + intros [H|H].
+      * apply HA in H. destruct H as (e & H1 & H2 & H3 & H4). apply Hok in H3. exists e. tauto.
+      * apply HB in H. destruct H as (e & H1 & H2 & H3 & H4 & _). apply Hok in H3. exists e. tauto.
+    + intros (e & H1 & H2 & H3 & H4 & [[H5 _]|[[H5 _]|[_ H5]]]); try discriminate H5.
+      destruct H5 as [H5|H5].
+      * left. apply HA. exists e. rewrite Hok. tauto.
+      * destruct (edir e) eqn:Hd.
+        -- right. apply HB. exists e. rewrite Hok. tauto.
+        -- left. apply HA. exists e. rewrite Hok. repeat split; try tauto.
+           destruct H5 as [[Hw Hu]|(_ & Hw & Hu)]; [right; tauto|left; tauto].
+  - (* no such direction *)
+    assert (F0 : N.eqb (vdir c) 0 = false) by (apply N.eqb_neq; assumption).
+    assert (F1 : N.eqb (vdir c) 1 = false) by (apply N.eqb_neq; assumption).
+    assert (F2 : N.eqb (vdir c) 2 = false) by (apply N.eqb_neq; assumption).
+    rewrite F0, F1, F2. cbn [orb]. split; [intros [[]|[]]|].
+    intros (e & _ & _ & _ & _ & [[H _]|[[H _]|[H _]]]); contradiction.
+Qed.
